@@ -206,6 +206,10 @@ func r43PixelFormulaShape(c *core.Ctx) {
 		rp := recvName(ip)
 		pt := "intgeom.FromGeomPoint(" + ip.Obj.Type().(*types.Signature).Params().At(0).Name() + ")"
 		for _, call := range core.CallsIn(pinfo, ip.Decl, "pointindex.PointIndex.InsertCoord") {
+			if len(call.Args) < 2 {
+				detail = "InsertCoord is not called with the two addresses"
+				continue
+			}
 			dx, ok1 := pe.eval(call.Args[0])
 			dy, ok2 := pe.eval(call.Args[1])
 			if !ok1 || !ok2 {
@@ -795,56 +799,93 @@ func r44ToNativeAcceptsFarCorner(c *core.Ctx, f *core.Func) {
 	if fn == nil {
 		return
 	}
-	got := map[string]string{} // axis -> operator found
-	for _, b := range fn.Blocks {
-		i := core.BlockIf(b)
-		if i == nil {
-			continue
-		}
-		cmp, ok := i.Cond.(*ssa.BinOp)
-		if !ok {
-			continue
-		}
-		tileField := func(v ssa.Value) string {
-			for _, n := range []string{"X", "Y"} {
-				if isFieldRead(v, n) {
-					return n
-				}
+	construct := "tonative-accepts-far-corner/" + f.Name
+	tileField := func(v ssa.Value) string {
+		v = core.Unwrap(v)
+		for _, n := range []string{"X", "Y"} {
+			if isFieldRead(v, n) {
+				return n
 			}
-			return ""
 		}
-		l, r := cmp.X, cmp.Y
-		op := cmp.Op
+		return ""
+	}
+	// the comparison as an atom: "X>" (tile.X > MatrixWidth, or its negation <=) or "X>=" (>= / <), same for Y
+	atomOf := func(v ssa.Value) (string, bool, bool) {
+		cmp, ok := v.(*ssa.BinOp)
+		if !ok {
+			return "", false, false
+		}
+		l, r, op := cmp.X, cmp.Y, cmp.Op
 		if tileField(l) == "" && tileField(r) != "" {
 			l, r = r, l
 			op = map[token.Token]token.Token{token.GTR: token.LSS, token.LSS: token.GTR, token.GEQ: token.LEQ, token.LEQ: token.GEQ}[op]
 		}
 		ax := tileField(l)
 		if ax == "" {
-			continue
+			return "", false, false
 		}
 		want := map[string]string{"X": "MatrixWidth", "Y": "MatrixHeight"}[ax]
-		if !isFieldRead(r, want) {
-			if isFieldRead(r, "MatrixWidth") || isFieldRead(r, "MatrixHeight") {
-				got[ax] = "compared with the other axis' size"
+		if !isFieldRead(core.Unwrap(r), want) {
+			if isFieldRead(core.Unwrap(r), "MatrixWidth") || isFieldRead(core.Unwrap(r), "MatrixHeight") {
+				return ax + "~other-axis", false, true
 			}
-			continue
+			return "", false, false
 		}
-		// which side refuses: the edge from which only failing returns are reachable
-		refuses := func(k int) bool {
-			found, _ := core.Search{Fn: fn, From: i, Target: func(in ssa.Instruction) bool {
-				ret, ok := in.(*ssa.Return)
-				return ok && len(ret.Results) == 2 && isConstBool(ret.Results[1], true)
-			}, Edge: func(bb *ssa.BasicBlock, kk int) bool { return !(bb == b && kk != k) }}.Run()
-			return !found
+		switch op {
+		case token.GTR:
+			return ax + ">", false, true
+		case token.LEQ:
+			return ax + ">", true, true
+		case token.GEQ:
+			return ax + ">=", false, true
+		case token.LSS:
+			return ax + ">=", true, true
 		}
-		switch {
-		case op == token.GTR && refuses(0), op == token.LEQ && refuses(1):
-			got[ax] = ">"
-		case op == token.GEQ && refuses(0), op == token.LSS && refuses(1):
-			got[ax] = ">="
+		return "", false, false
+	}
+	// the block where the first of these comparisons is made
+	var start *ssa.BasicBlock
+	for _, b := range fn.Blocks {
+		for _, in := range b.Instrs {
+			if v, ok := in.(ssa.Value); ok && start == nil {
+				if _, _, isAtom := atomOf(v); isAtom {
+					start = b
+				}
+			}
 		}
 	}
-	okc := got["X"] == ">" && got["Y"] == ">"
-	c.Check(R, "tonative-accepts-far-corner/"+f.Name, f.Decl.Pos(), okc, "refuses exactly tile.X > MatrixWidth or tile.Y > MatrixHeight", fmt.Sprintf("ToNative's range guard is not `tile.X > MatrixWidth || tile.Y > MatrixHeight` (found X: %q, Y: %q): the corner of tile (width, height), which is the far corner of the bounding box, must be answered, anything beyond refused", got["X"], got["Y"]))
+	if start == nil {
+		c.Bad(R, construct, f.Decl.Pos(), "ToNative has no range guard on tile.X / tile.Y against the matrix size")
+		return
+	}
+	// decision table over (tile.X > width, tile.Y > height): refused (a return with ok == false before anything
+	// else is decided) exactly when one of them holds.  A comparison with >= shows up as another atom and fails.
+	bad := ""
+	usedAll := map[string]bool{}
+	for m := 0; m < 4; m++ {
+		as := map[string]bool{"X>": m&1 != 0, "Y>": m&2 != 0, "X>=": m&1 != 0, "Y>=": m&2 != 0}
+		bi := &boolInterp{roleOf: func(*boolFrame, ssa.Value) string { return "" }, atom: func(_ *boolFrame, v ssa.Value) (string, bool, bool) { return atomOf(v) }, assign: as, used: map[string]bool{}}
+		fr := &boolFrame{fn: fn, roles: map[ssa.Value]string{}, env: map[ssa.Value]bool{}}
+		if len(start.Preds) > 0 {
+			fr.prev = start.Preds[0]
+		}
+		out, err := bi.run(fr, start, nil, 0)
+		refused := err == nil && out.kind == "return" && out.ret != nil && len(out.ret.Results) == 2 && isConstBool(out.ret.Results[1], false)
+		for k := range bi.used {
+			usedAll[k] = true
+		}
+		want := as["X>"] || as["Y>"]
+		if refused != want {
+			bad += fmt.Sprintf("with tile.X > width = %v and tile.Y > height = %v the tile is refused = %v; ", as["X>"], as["Y>"], refused)
+		}
+	}
+	for k := range usedAll {
+		if k != "X>" && k != "Y>" {
+			bad += "the guard compares with " + k + " (the index equal to the matrix size must be answered: it is the far corner of the bounding box); "
+		}
+	}
+	if !usedAll["X>"] || !usedAll["Y>"] {
+		bad += "one of the axes is not guarded; "
+	}
+	c.Check(R, construct, f.Decl.Pos(), bad == "", "refuses exactly tile.X > MatrixWidth or tile.Y > MatrixHeight (decision table over the two comparisons)", "ToNative's range guard is not `tile.X > MatrixWidth || tile.Y > MatrixHeight`: "+bad)
 }
